@@ -201,7 +201,7 @@ func (o *obs19) move(r *rand.Rand, left time.Duration) bool {
 	ctx, cancel := context.WithTimeout(context.Background(), 3*time.Millisecond)
 	defer cancel()
 	switch k := r.Intn(10); {
-	case k < 3 && len(o.bps) < 3:
+	case k < 3 && len(o.bps) < 5:
 		var opts []func(*uruntime.Breakpoint)
 		desc := "break"
 		sb := o.syms[r.Intn(len(o.syms))]
@@ -370,6 +370,11 @@ func runC19(seed int64, n int, tier string) *Result {
 			res.Cases = append(res.Cases, Case{Gallina: "(mk19 [] [])", Input: map[string]any{"seed": caseSeed}, Nontrivial: true, Key: fmt.Sprint(caseSeed), OracleFail: msg})
 		}
 	}
+	for _, how := range []string{"close", "remove", "close-one-by-one"} {
+		if f := deterministicRelease19(how); f != "" {
+			res.Cases = append(res.Cases, Case{Gallina: "(mk19 [] [])", Input: "deterministic: five breakpoints, a packet paused at each, then " + how, Nontrivial: true, Key: "rel-" + how, OracleFail: f})
+		}
+	}
 	det, g := deterministicFrames19()
 	res.Cases = append(res.Cases, Case{Gallina: g, Input: "deterministic: one symbol, two out-ports, responses in the opposite order of the requests", Nontrivial: true, Key: "det", OracleFail: det})
 	return res
@@ -425,4 +430,89 @@ func deterministicFrames19() (string, string) {
 		}
 	}
 	return "", o.gallina
+}
+
+// deterministicRelease19: five breakpoints (one per process), a request of each process paused at its breakpoint,
+// then the debugger is closed / every breakpoint removed / every breakpoint closed: every request must be answered
+func deterministicRelease19(how string) string {
+	n := node.NewOneToOneNode(func(_ *process.Process, in *packet.Packet) (*packet.Packet, *packet.Packet) {
+		return packet.New(types.NewInt(intOf(in) + 1)), nil
+	})
+	defer n.Close()
+	sb := &symbol.Symbol{Spec: &spec.Meta{ID: uuid.Must(uuid.NewV7()), Kind: "k", Namespace: "default", Name: "n"}, Node: n}
+	sb.In("in")
+	sb.Out("out")
+	agent := uruntime.NewAgent()
+	defer agent.Close()
+	_ = agent.Load(sb)
+	dbg := uruntime.NewDebugger(agent)
+	defer dbg.Close()
+	src := port.NewOut()
+	src.Link(n.In("in"))
+	defer src.Close()
+	const k = 5
+	var procs []*process.Process
+	var bps []*uruntime.Breakpoint
+	answers := make(chan int, k)
+	for i := 0; i < k; i++ {
+		proc := process.New()
+		defer proc.Exit(nil)
+		procs = append(procs, proc)
+		bp := uruntime.NewBreakpoint(uruntime.BreakWithProcess(proc))
+		bps = append(bps, bp)
+		dbg.AddBreakpoint(bp)
+	}
+	for i, proc := range procs {
+		i := i
+		sw := src.Open(proc)
+		go func() {
+			for p := range sw.Receive() {
+				_ = p
+				answers <- i
+			}
+		}()
+		go sw.Write(packet.New(types.NewInt(10 * (i + 1))))
+	}
+	// every request is paused at its breakpoint
+	deadline := time.Now().Add(3 * time.Second)
+	for _, bp := range bps {
+		for bp.Frame() == nil {
+			if time.Now().After(deadline) {
+				return "set-up: a request did not reach its breakpoint"
+			}
+			time.Sleep(200 * time.Microsecond)
+		}
+	}
+	switch how {
+	case "close":
+		dbg.Close()
+	case "remove":
+		for _, bp := range bps {
+			dbg.RemoveBreakpoint(bp)
+		}
+	default:
+		for _, bp := range bps {
+			bp.Close()
+		}
+	}
+	got := map[int]bool{}
+	timeout := time.After(3 * time.Second)
+	for len(got) < k {
+		select {
+		case i := <-answers:
+			got[i] = true
+		case <-timeout:
+			var missing []int
+			for i := 0; i < k; i++ {
+				if !got[i] {
+					missing = append(missing, i+1)
+				}
+			}
+			for _, bp := range bps {
+				bp.Close() // let the stuck packets go, so that the clean-up below cannot wait for them
+			}
+			return fmt.Sprintf("five breakpoints (one per process), one request paused at each, then %s: the requests paused at breakpoint(s) %v were not resumed within 3s", how, missing)
+		}
+	}
+	return ""
 }
